@@ -296,6 +296,8 @@ def apalache_inductive(r, module, cinit="ConstInit", init="Init", indinit="IndIn
     shutil.copy(os.path.join(SPEC, module), wd)
     env = dict(os.environ)
     env["JAVA_TOOL_OPTIONS"] = "-Djava.io.tmpdir=" + wd
+    env["JVM_ARGS"] = "-Djava.io.tmpdir=" + wd      # the launcher's own variable: SANY's scratch directories go here, not to /tmp
+    env["TMPDIR"] = wd
     steps = [("base", init, inv, 0, "Next", True), ("step", indinit, inv, 1, "Next", True),
              ("implies", indinit, safety, 0, "Next", True)]
     if neg_next:
